@@ -46,6 +46,9 @@ RULE = ("inputs = corpus of 12 valid requests / 12 valid responses, each either 
         "byte-mutated (flip/set/delete/duplicate/insert/token/eol/line swap), spliced, random bytes, or truncated; x 0..5 cut "
         "points (or byte-by-byte) on a round schedule x optional EOF x sibling before/with/after and accepted first/second. "
         "Every 20th input is constructed as a control and every 20th as a complete, certainly invalid message (for O3/O4). "
+        "Every 20th input is a complete response whose status line has no reason phrase (with / without the trailing blank), an "
+        "unlisted reason or a lower-case version, over codes {299,308,418,422,451,599,200,404,500,226,207,102} (quick) / every "
+        "code 100..599 (thorough). "
         "Non-trivial = not a control and hio received the hostile bytes; distinct = by role and byte string.")
 ASSUMPTIONS = [
     "plain TCP on 127.0.0.1 only (no TLS); peers never close abortively during a case (socket-level faults are C10's subject)",
@@ -62,6 +65,7 @@ TIMEOUT_S = {"quick": 280, "thorough": 1700}
 PEAK_COUNTERS = ("rounds_max",)
 REQUIRE = {"server_cases": 2000, "client_cases": 1000, "service_rounds": 30000, "hostile_bytes_received_by_hio": 300000,
            "sibling_exact_responses": 1200, "reject_inputs_judged": 150, "controls_ok": 100, "fragmented_inputs": 1000,
+           "status_lines_without_or_with_unlisted_reason": 200, "complete_responses_required_queued": 100,
            "lines_httping": 150, "lines_serving": 150, "lines_clienting": 150}
 
 _state = {"ports": None, "cov": False}
@@ -71,11 +75,19 @@ GRACE = 20    # extra rounds (with longer yields) a case gets before a delivery-
 def cases(tier, seed, shard, nshards):
     rng = random.Random(f"{seed}:C16:{shard}")
     n = (4800 if tier == "quick" else 200000) // nshards
+    sts = gh.status_schedule(tier)      # status lines without / with an unlisted reason phrase, on a fixed schedule
+    nst = 0
     for i in range(n):
         r = rng.random()
         role = "wsgi" if r < 0.40 else ("bare" if r < 0.65 else "client")
         force = {0: "control", 1: "reject"}.get(i % 20)     # the classes O3/O4 and the controls need are constructed, not hoped for
-        inp = gh.gen_input(rng, is_request=role != "client", allow_big=(tier == "thorough" or rng.random() < 0.6), force=force)
+        if i % 20 == 2:
+            role = "client"
+            code, variant = sts[(shard * ((n + 19) // 20) + nst) % len(sts)]
+            nst += 1
+            inp = gh.gen_status_case(code, variant, http10=rng.random() < 0.25)
+        else:
+            inp = gh.gen_input(rng, is_request=role != "client", allow_big=(tier == "thorough" or rng.random() < 0.6), force=force)
         total = gh.seglen(inp["segs"])
         cuts = []
         if total > 1:
@@ -101,7 +113,7 @@ def cases(tier, seed, shard, nshards):
         if role == "client":
             case["method"] = rng.choice(["GET", "GET", "GET", "HEAD", "POST"])
             case["dictable"] = rng.random() < 0.3
-        if case["control"] and case.get("method") == "HEAD":
+        if (case["control"] or "queued" in case) and case.get("method") == "HEAD":
             case["method"] = "GET"      # the corpus responses carry bodies: they answer GET/POST, not HEAD
         if case["control"] and (role != "client" or case["shape"][0] == "control:redirect"):
             # a half-closing client is (silently) dropped by hio servers, and a redirect cannot be followed on a
@@ -420,7 +432,8 @@ def run_client(case, ctx):
                     delivered = hl.rx_count(conn.peer) >= len(data) and not conn.pending and done_sending
                     if full_at is None and delivered and (not case["eof"] or conn.shut):
                         full_at = rnd
-            must = base is None or ((case["reject"] or case["control"]) and not client.responses and not client.events)
+            must = base is None or ((case["reject"] or case["control"] or case.get("queued")) and
+                                    not client.responses and not client.events)
             if case["control"] and case["shape"][0] == "control:close_delim" and not case["eof"]:
                 must = False
             waiting = must or full_at is None
@@ -461,6 +474,15 @@ def run_client(case, ctx):
                 ctx.violation("malformed-response-not-flagged",
                               f"complete response with an invalid status line queued with errored=False "
                               f"(status={first['status']!r}); {describe(case, data)!r}")
+        if "queued" in case:
+            ctx.count("status_lines_without_or_with_unlisted_reason")
+            ctx.seen("status_code_variants", case["shape"] + [bytes(data[:16])])
+            if case["queued"]:
+                ctx.count("complete_responses_required_queued")
+                if first is None:
+                    ctx.violation("complete-response-not-queued:client",
+                                  f"complete response (status line {bytes(data.split(b'\r\n')[0])!r}, Content-Length framed): nothing "
+                                  f"queued after {rnd + 1} rounds; {describe(case, data)!r}")
         if case["control"]:
             name = case["shape"][0]
             if name in ("control:sse", "control:sse_chunked"):
